@@ -343,7 +343,11 @@ def check_consumer(chk, prefix, want=("C03", "C05", "C06", "C01")):
             s0, l0, W_entry, We_entry = st_.ghost["drain_" + which]
             i = z3.Int(fresh_name("i"))
             # completion events are never cleared, and the error of an event that is already set is never replaced (first error wins)
-            eid = qmodel.err_id(st_.env["bg_error"]) if isinstance(st_.env.get("bg_error"), Ref) else z3.IntVal(-2)
+            # the failure the waiters must see: the error the failed flag was set with in this iteration (the flag precedes the drains:
+            # `produce.no_lost_wakeup.flag_before_drain`), whatever the local variable that carries it is called where the loop lives
+            fs = [e for e in st_.trace[st_.ghost.get("iter_start", 0):] if e.kind == "failed_set" and isinstance(e.err, Ref)]
+            errv = fs[-1].err if fs else st_.env.get("bg_error")
+            eid = qmodel.err_id(errv) if isinstance(errv, Ref) else z3.IntVal(-2)
             Wn, Wen = st_.ghost["W"], st_.ghost["Werr"]
             inside = z3.And(i >= s0, i < q["start"])
             # one quantified fact: outside the drained prefix nothing changed; inside it, an event that was already set keeps its error (first error
@@ -420,11 +424,21 @@ def check_consumer(chk, prefix, want=("C03", "C05", "C06", "C01")):
         drain loop extracted into a helper and called once per queue): the same drain contract applies, chosen by the queue object"""
         import ast as _ast
         t = node.test
-        if not (isinstance(t, _ast.UnaryOp) and isinstance(t.op, _ast.Not) and isinstance(t.operand, _ast.Call) and isinstance(t.operand.func, _ast.Attribute)
+        qexpr = None
+        if (isinstance(t, _ast.UnaryOp) and isinstance(t.op, _ast.Not) and isinstance(t.operand, _ast.Call) and isinstance(t.operand.func, _ast.Attribute)
                 and t.operand.func.attr == "empty" and not t.operand.args):
+            qexpr = t.operand.func.value
+        elif isinstance(t, _ast.Constant) and t.value is True and node.body and isinstance(node.body[0], _ast.Try):
+            # `while True: try: x = Q.get_nowait() except queue.Empty: break/return` - the same drain, without the racy empty() test
+            for b in node.body[0].body:
+                c = b.value if isinstance(b, (_ast.Assign, _ast.Expr)) else None
+                if isinstance(c, _ast.Call) and isinstance(c.func, _ast.Attribute) and c.func.attr == "get_nowait" and not c.args:
+                    qexpr = c.func.value
+                    break
+        if qexpr is None:
             return None
         try:
-            qs = eng_.ev(t.operand.func.value, st_.fork())
+            qs = eng_.ev(qexpr, st_.fork())
         except Unsupported:
             return None
         if len(qs) != 1 or qs[0][0] != "val":
